@@ -76,6 +76,7 @@ def run_scene(sc, active, handling, mmax, site, method="eig", extra=None, lapack
     from smrt.core.error import SMRTError
     sp, atm = scenes.build(sc)
     opts = dict(n_max_stream=sc["nmax"], m_max=mmax, error_handling=handling, diagonalization_method=method)
+    opts.update(sc.get("solver_extra") or {})
     opts.update(extra or {})
     m = make_model(sc["emmodel"], "dort", rtsolver_options=opts)
     sensor = sensor_list.active(sc["frequency"], [25., 40.]) if active else sensor_list.passive(sc["frequency"], [25., 40.])
@@ -108,9 +109,19 @@ def fault_cases(rng, n):
         active = bool(rng.random() < 0.6)
         sc = scenes.random_scene(rng, lossless=False, microstructure="exponential", max_layers=3, atmosphere=False, active=active)
         sc["emmodel"], sc["nmax"] = "iba", 8
-        mmax = int(rng.integers(0, 3)) if active else 0
+        mmax = int(rng.choice([0, 1, 2, 2, 3, 4])) if active else 0
+        # the solver options of the property's quantifier that do not change the flow: they ride along with the scene
+        sc["solver_extra"] = {"phase_normalization": bool(rng.random() < 0.6)}
         out.append((sc, active, mmax))
     return out
+
+
+def pick_sites(rng, sites, limit=14):
+    """every fault site when there are few; otherwise the first and last plus a random subset that keeps high azimuth modes"""
+    if len(sites) <= limit:
+        return sites
+    keep = {0, len(sites) - 1} | {int(k) for k in rng.choice(len(sites), limit - 2, replace=False)}
+    return [sites[k] for k in sorted(keep)]
 
 
 def correspond(ctx):
@@ -127,6 +138,7 @@ def correspond(ctx):
         sites = [None] + [(l, m, coh) for l in range(L) for m in range(mmax + 1) for coh in ([False, True] if active else [False])]
         if not active:
             sites.append((0, 1, False))        # a mode the passive solver never computes
+        sites = [None] + pick_sites(rng, sites[1:])
         for site in sites:
             for handling in ("nan", "exception"):
                 res = run_scene(sc, active, handling, mmax, site)
@@ -269,9 +281,10 @@ def check_faults(sc, active, mmax):
     normal = run_scene(sc, active, "exception", mmax, None)
     if isinstance(normal, str):
         return None
-    for l in range(L):
-        for m in range(mmax + 1):
-            for coh in ([False, True] if active else [False]):
+    allsites = [(l, m, coh) for l in range(L) for m in range(mmax + 1) for coh in ([False, True] if active else [False])]
+    for (l, m, coh) in pick_sites(np.random.default_rng(L * 100 + mmax), allsites):
+        if True:
+            if True:
                 r = run_scene(sc, active, "exception", mmax, (l, m, coh))
                 if r != "raised":
                     return ("fault:exception", (l, m, coh), "raised SMRTError", r if isinstance(r, str) else "returned a result")
